@@ -107,6 +107,7 @@ def run(check, prog):
     r6_arithmetic(check, prog, canon)
     r7_constructors(check, prog, canon)
     r8_uniform_guess(check, prog, canon)
+    r9_updated_support(check, prog)
 
 
 # ----------------------------------------------------------------------
@@ -804,3 +805,71 @@ def r7_constructors(check, prog, canon):
            e['callee'].endswith('Gaussian.__init__')]
     check.require(bool(inl), 'R7-constructor-rejects', 'BoundedGaussian(sd <= 0)',
                   'delegates to Gaussian.__init__, which rejects sd <= 0', loc)
+
+
+def r9_updated_support(check, prog):
+    """R9: updating a prior from a posterior never widens its support.
+
+    `updated(prior, v)` of a prior that declares bounds is a BoundedGaussian with
+    those same bounds (a missing one defaulting to the infinite side) -- whatever
+    other tests the function makes; an unbounded prior gives a Gaussian."""
+    import itertools
+    from hpstatic.logic import select, guard_atoms
+    q = P + 'updated'
+    if not prog.has_func(q):
+        return
+    fd = prog.func(q)
+    loc = prog.loc(q, fd)
+    it = Interp(prog, max_depth=1, inline_new=False)
+    v = it.analyze(q).ret
+    pr = sym(fd.args.args[0].arg)
+    atoms = guard_atoms(v)
+    has = {s: intern(('call', 'hasattr', (pr, ('const', s)), ())) for s in
+           ('lower_bound', 'upper_bound')}
+    inf = ('extref', 'numpy.inf')
+    ninf = intern(('un', '-', inf))
+
+    def bound_ok(t, side):
+        name = side + '_bound'
+        dflt = ninf if side == 'lower' else inf
+        return t == ('attr', pr, name) or \
+            t == ('call', 'getattr', (pr, ('const', name), dflt), ())
+    bad = []
+    rows = 0
+    for vals in itertools.product((True, False), repeat=len(atoms)):
+        asg = dict(zip(atoms, vals))
+        hl, hu = asg.get(has['lower_bound']), asg.get(has['upper_bound'])
+        leaf = select(v, lambda t: asg.get(t))
+        rows += 1
+        # bounded: either test says so (every bounded prior of the package declares
+        # both); rows where the function does not ask are decided by what it asks
+        bounded = bool(hl) or bool(hu) or (hl is None and hu is None and not atoms)
+        row = ', '.join('%s=%s' % (show(a)[:40], b) for a, b in asg.items())
+        if leaf is None:
+            bad.append(row + ': undecided')
+            continue
+        if hl is None and hu is None and atoms:
+            bounded = None
+        if bounded or bounded is None:
+            if leaf[0] == 'new' and leaf[1] == P + 'BoundedGaussian':
+                names = ['mu', 'sd', 'lower_bound', 'upper_bound', 'name']
+                s = dict(zip(names, leaf[2]))
+                s.update(dict(leaf[3]))
+                if not (bound_ok(s.get('lower_bound', NONE), 'lower') and
+                        bound_ok(s.get('upper_bound', NONE), 'upper')):
+                    bad.append(row + ': bounds become (%s, %s)' % (
+                        show(s.get('lower_bound', NONE))[:40],
+                        show(s.get('upper_bound', NONE))[:40]))
+            elif bounded:
+                bad.append(row + ': a bounded prior is updated to %s' % show(leaf)[:60])
+            else:
+                # the function has not established that the prior is unbounded
+                bad.append(row + ': %s is returned without knowing that the prior '
+                           'declares no bounds (a one-sided bound is lost)' % show(leaf)[:40])
+        else:
+            if not (leaf[0] == 'new' and leaf[1] in (P + 'Gaussian', P + 'BoundedGaussian')):
+                bad.append(row + ': result %s' % show(leaf)[:60])
+    check.require(not bad and rows >= 2, 'R9-updated-support', 'updated',
+                  'a prior with declared bounds is updated to a BoundedGaussian with the '
+                  'same bounds in every case (%d rows)' % rows, loc,
+                  fail_detail='; '.join(bad[:3]))
